@@ -12,7 +12,7 @@ META = {
              "ids, or when a requested output is not computable (missing source or dependency cycle). The model is tied to "
              "the code by running model and Graph::execution_plan (hook) on the same graphs and requests and comparing "
              "the exact operator sequence or error (with the ids it names) inside Coq; the implementation's own answers "
-             "are additionally checked by an executable plan checker (reflection lemmas in Props_C03)."),
+             "are additionally checked by executable oracles that are proved EXACT (plan_okb <-> the five plan properties; request_plannableb <-> plannable)."),
     "note": ("Trusted: Coq kernel; the correspondence sample (a test, not a proof); FxHashMap/FxHashSet/Vec modelled as "
              "lists; the hook's test operator and name scheme n<id>. F11 (sort_plan scheduled an operator twice, and "
              "looped forever on an operator consuming its own output that is also a run input) is fixed in the tree "
@@ -23,8 +23,8 @@ GROUP = "planner"
 REQ = "From RV Require Import Prelude.\nFrom Planner Require Import Graph PlannerModel.\nOpen Scope N_scope."
 THEOREMS = ["C03_mk_graph_wf", "C03_create_plan_terminates", "C03_create_plan_total", "C03_plan_nodup",
             "C03_plan_ops_exist", "C03_plan_valid", "C03_plan_complete", "C03_plan_minimal", "C03_plan_errors_exact",
-            "C03_plannable_never_rejected", "C03_initial_frontier_nonempty", "C03_oracle_sound", "C03_oracle_core_exact",
-            "C03_plannable_oracle_sound", "C03_example_wf", "C03_example_plans", "C03_example_sorted",
+            "C03_plannable_never_rejected", "C03_initial_frontier_nonempty", "C03_oracle_exact",
+            "C03_plannable_oracle_exact", "C03_example_wf", "C03_example_plans", "C03_example_sorted",
             "C03_example_cycle", "C03_example_F11"]
 
 
@@ -48,7 +48,7 @@ def main(ctx):
     cases = ctx.gen_exec(bindir, "c03", ctx.n(1600, 16000), inputs=ctx.replay_inputs())
     ctx.extra["requests_evaluated"] = sum(c["term"].count("mkreq ") + (112 if "small_reqs 3" in c["term"] else 0) for c in cases)
     ctx.exhaustive = False
-    ctx.correspond("create_plan", GROUP, REQ, cases, show="show", shard=ctx.n(150, 1600),
+    ctx.correspond("create_plan", GROUP, REQ, cases, show="show", shard=ctx.n(150, 250),
                    fn_name="Planner.PlannerModel.create_plan vs Graph::execution_plan")
     if failed and not ctx.violations:
         ctx.proof_broken(failed, "all correspondence cases of this run")
